@@ -241,3 +241,17 @@ def unsafe_call_ok(I, st, key, args):
             return (False, 'from_bytes_unchecked(status unconstrained)')
         return (None, 'from_bytes_unchecked(%r)' % (a,))
     return (None, 'unsafe fn without a recorded contract: ' + key)
+
+
+def assume_unsafe_contract(I, st, key, args):
+    """entering an `unsafe fn` as an entry point: its documented safety precondition holds
+    (callers are audited at their call sites by `unsafe_call_ok`)"""
+    fn = I.F.fns.get(key)
+    name = key.split('::')[-1]
+    if name == 'new_unchecked' and fn:
+        selfty = fn.get('impl_self')
+        p = selfty['path'] if selfty and selfty['k'] == 'adt' else None
+        if p in NEWTYPE_MAX and args and isinstance(args[0], Sc):
+            T.refine(args[0].term, VS(0, NEWTYPE_MAX[p]), st.cons)
+    if name == 'from_bytes_unchecked' and args and isinstance(args[0], Ag) and args[0].fields and isinstance(args[0].fields[0], Sc):
+        T.refine(args[0].fields[0].term, VS(0x80, 0xFF), st.cons)
